@@ -256,6 +256,35 @@ func (p *C02) Gen(seed uint64, i int, tier string) *scen.Scenario {
 		mk(2, 1)
 		loggers = append(loggers, 2)
 	}
+	var customs []int
+	for k := r.Intn(3); k > 0; k-- {
+		v := r.Range(13, 60)
+		dup := false
+		for _, c := range customs {
+			dup = dup || c == v
+		}
+		if dup {
+			continue
+		}
+		reg := scen.Op{Op: "register_level", Lvl: v, Name: fmt.Sprintf("cust%d", v)}
+		if r.Bool() {
+			reg.Opts = append(reg.Opts, scen.Op{Kind: "treat_as", Lvl: scen.Pick(r, []int{model.Error, model.Warn, model.Info, model.Debug})})
+		}
+		switch r.Intn(4) {
+		case 0:
+			reg.Opts = append(reg.Opts, scen.Op{Kind: "color", I: int64(r.Range(30, 37))}) // foreground only
+		case 1:
+			reg.Opts = append(reg.Opts, scen.Op{Kind: "color", I: int64(r.Range(30, 37)), J: 5})
+		}
+		if r.Chance(1, 3) {
+			reg.Opts = append(reg.Opts, scen.Op{Kind: "errdev", B: []bool{true}})
+		}
+		if r.Chance(1, 3) {
+			reg.Opts = append(reg.Opts, scen.Op{Kind: "tags", S: []string{"", "c", "", "cst", "", "custm"}})
+		}
+		sc.Setup = append(sc.Setup, reg)
+		customs = append(customs, v)
+	}
 	sc.Setup = append(sc.Setup, scen.Op{Op: "set_debug_mode", B: []bool{false}}, scen.Op{Op: "get_debug_mode"}, scen.Op{Op: "snap"})
 	var calls []scen.Op
 	n := r.Range(4, 20)
@@ -265,7 +294,12 @@ func (p *C02) Gen(seed uint64, i int, tier string) *scen.Scenario {
 		l := scen.Pick(r, loggers)
 		var entry string
 		name := sevEntryName[sev]
-		switch r.Intn(7) {
+		pick := r.Intn(7)
+		if len(customs) > 0 && r.Chance(1, 4) {
+			sev = scen.Pick(r, customs) // a registered custom severity: only the level-parameter entry points carry it
+			pick = 2 + r.Intn(2)
+		}
+		switch pick {
 		case 6:
 			entry = name
 			switch sev {
@@ -312,6 +346,9 @@ func (p *C02) Gen(seed uint64, i int, tier string) *scen.Scenario {
 		case 0:
 		case 1:
 			nargs = r.Range(13, 64)
+			if r.Chance(1, 10) {
+				nargs = scen.Pick(r, []int{120, 130, 600, 1030, 1600}) // around and beyond the pooled slice's size thresholds
+			}
 		default:
 			nargs = r.Range(1, 8)
 		}
@@ -352,6 +389,36 @@ func (p *C02) Gen(seed uint64, i int, tier string) *scen.Scenario {
 	return sc
 }
 
+// WellFormed: the statement is about calls of non-terminating severity.
+func (p *C02) WellFormed(sc *scen.Scenario) bool {
+	ok := false
+	for _, f := range sc.World.Flags {
+		if f == "LnoInterrupt" {
+			ok = true
+		}
+	}
+	if !ok {
+		return false
+	}
+	chk := func(ops []scen.Op) bool {
+		for i := range ops {
+			if ops[i].Op == "log" && (ops[i].Lvl == model.Panic || ops[i].Lvl == model.Fatal) {
+				return false
+			}
+		}
+		return true
+	}
+	if !chk(sc.Setup) {
+		return false
+	}
+	for _, t := range sc.Tasks {
+		if !chk(t.Ops) {
+			return false
+		}
+	}
+	return true
+}
+
 func isBlank(s string) bool { return strings.Trim(s, "\n\r \t") == "" }
 
 func argShape(as []scen.Arg, depth int) string {
@@ -373,7 +440,7 @@ func (p *C02) Check(sc *scen.Scenario, run *orch.Run, env *orch.Env) []orch.Viol
 		out = append(out, orch.Violation{Rule: rule, Witness: witness, Detail: fmt.Sprintf(format, a...)})
 	}
 	ops := indexOps(run)
-	reg := model.NewRegistry()
+	reg := registryFromHistory(sc, ops, -1)
 	debug := false
 	var snap map[int]snapLogger
 	setupLen := len(sc.Setup)
